@@ -10,7 +10,9 @@ Design level  : MC_Call — both algorithms equal the rule for every integer of 
                 classes; three broken variants must be rejected.  CallXbuf — the exchange
                 buffer of cdata_call (fb_build offsets, pointer array, ffi_arg-sized result
                 slot) byte by byte for every signature of <= 2 (3) parameters over the
-                size/alignment classes; two broken variants must be rejected.
+                size/alignment classes; CallFfiType — the flattened element list fb_fill_type
+                gives libffi for structs with (multi-dimensional) array fields; broken variants
+                of each must be rejected.
 Binding       : CallGen — TLC enumerates signature classes x argument classes and predicts each
                 class's conversion outcome from ConvertArg; the replayer generates one C
                 function per sampled signature and one module exposing it on all four paths
@@ -62,6 +64,12 @@ INVARIANT ArgsIntact
 INVARIANT ResultIntact
 CHECK_DEADLOCK FALSE
 """
+FT_CFG = """SPECIFICATION Spec
+CONSTANTS Variant = "%s"
+INVARIANT FilledAsCounted
+INVARIANT Covers
+CHECK_DEADLOCK FALSE
+"""
 XB_VARIANTS = (("off0_zero", "ArgsIntact"), ("size_short", "InBounds"), ("struct_nozero", "ArgsIntact"))
 VARIANTS = (("api_uge", "ApiIsRule"), ("ffi_zeroext", "FfiIsRule"), ("bool_range", "FfiIsRule"),
             ("api_struct_nozero", "ApiStructIsRule"), ("ffi_struct_nozero", "FfiStructIsRule"))
@@ -72,15 +80,19 @@ def design_level(ctx):
     TLC runs; returns (signatures, class table, variadic class table)."""
     q = ctx.quick
     win, edge = (140, 3) if q else (700, 12)
-    with ThreadPoolExecutor(max_workers=8) as ex:
+    with ThreadPoolExecutor(max_workers=10) as ex:
         fxb = ex.submit(core.tlc, "CallXbuf", cfg_text=XB_CFG % (2 if q else 3, "faithful"), workers=2 if q else 6,
                         timeout=1500)
+        # quick: the broken variants are rejected inside the main runs (ASSUMEs of the modules evaluate every
+        # variant against the rule); thorough: additionally each variant as its own configuration
         fxv = [ex.submit(core.tlc, "CallXbuf", cfg_text=XB_CFG % (2, v), workers=1, timeout=600, env=R.LIGHT_JVM)
-               for v, _inv in XB_VARIANTS]
+               for v, _inv in (XB_VARIANTS if not q else ())]
+        fft = ex.submit(core.tlc, "CallFfiType", cfg_text=FT_CFG % "faithful", workers=2, timeout=600, env=R.LIGHT_JVM)
+        fftv = None if q else ex.submit(core.tlc, "CallFfiType", cfg_text=FT_CFG % "lastdim", workers=1, timeout=600)
         fmc = ex.submit(core.tlc, "MC_Call", cfg_text=MC_CFG % (win, edge, "faithful"), workers=4 if q else 8,
                         coverage=not q, timeout=1200)
         fvs = [ex.submit(core.tlc, "MC_Call", cfg_text=MC_CFG % (20, 1, v), workers=1, timeout=600, env=R.LIGHT_JVM)
-               for v, _inv in VARIANTS]
+               for v, _inv in (VARIANTS if not q else ())]
         fgen = ex.submit(R.run_gen, 2 if q else 3, 9 if q else 12)
         r = fmc.result()
         ctx.add_tlc("MC_Call(Base=4,window=%d)" % win, r)
@@ -103,6 +115,15 @@ def design_level(ctx):
             if r.ok or inv not in r.invariant_violated:
                 raise core.MachineryError("broken variant %s of the exchange-buffer model was not rejected (%s)" % (
                     v, r.invariant_violated))
+        ctx.add_tlc("CallFfiType(<=2 fields, <=3 dims)", fft.result())
+        if fftv is not None:
+            r = fftv.result()
+            ctx.add_tlc("sanity:ffitype_lastdim", r, require_ok=False, count_states=False)
+            if r.ok or not r.invariant_violated:
+                raise core.MachineryError("broken variant lastdim of the ffi_type model was not rejected")
+        ctx.cov["variants_rejected_by_assume"] = ["api_uge", "ffi_zeroext", "bool_range", "struct_nozero(store)",
+                                                  "xbuf:off0_zero", "xbuf:size_short", "xbuf:struct_nozero",
+                                                  "ffitype:lastdim"]
         return R.parse_space(ctx, *fgen.result())
 
 
@@ -115,11 +136,14 @@ def sample_sigs(ctx, sigs):
     for fam, (nq, nt) in QUOTA.items():
         pool = by.get(fam, [])
         n = min(len(pool), nq if ctx.quick else nt)
-        if fam == "sel":            # keep the wide (stack-passing) signatures represented
+        if fam == "sel":            # keep the wide (stack-passing) and the array-field signatures represented
             wide = [s for s in pool if len(s[1]) >= 5]
-            narrow = [s for s in pool if len(s[1]) < 5]
+            arrs = [s for s in pool if any(t in G.ARR_STRUCTS for t in s[1])]
+            arrset = set(arrs)
+            narrow = [s for s in pool if len(s[1]) < 5 and s not in arrset]
             nw = min(len(wide), max(4, n // 5))
-            chosen += rng.sample(wide, nw) + rng.sample(narrow, min(len(narrow), n - nw))
+            na = min(len(arrs), max(8, n // 4))
+            chosen += rng.sample(wide, nw) + rng.sample(arrs, na) + rng.sample(narrow, min(len(narrow), n - nw - na))
         else:
             chosen += rng.sample(pool, n)
     return chosen
